@@ -15,7 +15,9 @@ Three parties per generated case:
   from the backward slicer).
 
 Property parts: (a) checked lines ⊆ executed lines, (b) slice instructions ⊆ executed instructions
-and the criterion is in its slice, (c) on the fragment: lines the sliced value depends on ⊆ slice.
+and the criterion is in its slice, (c) on the fragment: lines the sliced value depends on ⊆ slice, and
+⊆ the lines `compute_statement_checked_lines` reports for the test (except, per statement, the line of
+its own trailing `return None`, which `_cleanse_included_implicit_return_none` drops on purpose).
 """
 from __future__ import annotations
 
@@ -38,6 +40,7 @@ FUEL = 6000
 # comprehension whose variable is otherwise unbound (`InstrumentationFastLoad` of a NULL local around
 # LOAD_FAST_AND_CLEAR / the restoring STORE_FAST) — a defect outside C09's statement (see design note).
 WIDE_FEATURES = {"boolop", "chain", "none", "in", "while", "for", "try", "with", "match", "closure"}
+FRAGMENT_KINDS = ("mini", "obj", "rec")
 LOOP_SIG = {"part": "c-dependence-complete", "class": "loop-carried-control-dependence"}
 REC_SIG = {"part": "c-dependence-complete", "class": "recursive-call-local-variable"}
 
@@ -60,8 +63,29 @@ def G(i):
     return {"g": {"i": i}}
 
 
+def A(i, r="self"):
+    """`<r>.a<i>` — r = "self" or a local (`L(i)`) holding an object."""
+    return {"at": {"r": r, "i": i}}
+
+
 def B(op, a, b):
     return {"bin": {"op": op, "a": a, "b": b}}
+
+
+def norm_prog(prog):
+    """Fill in the fields older (corpus / witness) programs do not carry."""
+    out = dict(prog)
+    out.setdefault("classes", [])
+    out["funs"] = [dict({"void": False, "cls": 0}, **f) for f in prog["funs"]]
+    return out
+
+
+def fun_name(prog, fi) -> str:
+    f = prog["funs"][fi]
+    cls = f.get("cls", 0)
+    if cls == 0:
+        return f"f{fi}"
+    return "__init__" if prog.get("classes", [])[cls - 1]["init"] == fi else f"m{fi}"
 
 
 class MiniGen:
@@ -70,6 +94,11 @@ class MiniGen:
     def __init__(self, rng: random.Random):
         self.r = rng
         self.line = 0
+        self.nattr = 0        # > 0 while a method body is generated: attributes self.a0 … self.a<nattr-1>
+        self.callable = []    # module functions SUT code may call (they return a value)
+        self.smeths = []      # methods of the class being generated, callable through self: (index, np, void)
+        self.nps = []
+        self.branch_first = False
 
     def nl(self) -> int:
         self.line += 1
@@ -78,9 +107,11 @@ class MiniGen:
     def atom(self, locs, ng):
         r = self.r
         k = r.random()
-        if k < 0.55 and locs:
+        if self.nattr and k < 0.3:
+            return A(r.randrange(self.nattr))
+        if k < 0.6 and locs:
             return L(r.choice(locs))
-        if k < 0.7 and ng:
+        if k < 0.72 and ng:
             return G(r.randrange(ng))
         return K(r.randint(-3, 7))
 
@@ -109,11 +140,18 @@ class MiniGen:
         kinds = ["asg", "asg", "asg", "aug"]
         if ng:
             kinds += ["gasg"]
+        if self.nattr:
+            kinds += ["aasg", "aasg", "aaug"]
         if depth < 2:
             kinds += ["if", "ifelse", "ifelse", "while"]
-        if fi > 0:
+        if self.callable:
             kinds += ["call", "call"]
+        if self.smeths:
+            kinds += ["scall", "scall"]
         k = r.choice(kinds)
+        if self.branch_first:
+            self.branch_first = False
+            k = r.choice(["if", "ifelse", "ifelse"])
         if k == "asg":
             return [{"asg": {"ln": self.nl(), "tg": L(r.choice(targets)), "e": self.expr(locs, ng)}}]
         if k == "aug":
@@ -122,6 +160,12 @@ class MiniGen:
                              "e": B(r.choice(["add", "sub"]), L(t), self.expr(locs, ng, 1))}}]
         if k == "gasg":
             return [{"asg": {"ln": self.nl(), "tg": G(r.randrange(ng)), "e": self.expr(locs, ng)}}]
+        if k == "aasg":
+            return [{"asg": {"ln": self.nl(), "tg": A(r.randrange(self.nattr)), "e": self.expr(locs, ng)}}]
+        if k == "aaug":
+            t = A(r.randrange(self.nattr))
+            return [{"asg": {"ln": self.nl(), "tg": t,
+                             "e": B(r.choice(["add", "sub"]), t, self.expr(locs, ng, 1))}}]
         if k == "if":
             ln = self.nl()
             c = self.cond(locs, ng)
@@ -144,12 +188,72 @@ class MiniGen:
             body = [inc] + self.block(fi, locs + [cn], targets, ng, depth + 1, r.randint(1, 2), counters)
             return [init, {"wh": {"ln": ln, "c": c, "a": body}}]
         if k == "call":
-            callee = r.randrange(fi)
+            callee = r.choice(self.callable)
             np_ = self.nps[callee]
             tg = L(r.choice(targets)) if (not ng or r.random() < 0.85) else G(r.randrange(ng))
             return [{"call": {"ln": self.nl(), "tg": tg, "f": callee,
                               "args": [self.expr(locs, ng, 1) for _ in range(np_)]}}]
+        if k == "scall":
+            callee, np_, void = r.choice(self.smeths)
+            tg = None if void else (L(r.choice(targets)) if r.random() < 0.8 else A(r.randrange(self.nattr)))
+            return [{"mcall": {"ln": self.nl(), "tg": tg, "r": "self", "f": callee,
+                               "args": [self.expr(locs, ng, 1) for _ in range(np_)]}}]
         raise AssertionError(k)
+
+    def function(self, fi, ng, cls=0, nattr=0, void=False, init=False, small=False):
+        """One `def`: module function (cls 0) or method of class cls-1.  A void function has no
+        `return`: its last statement is a simple assignment whose line also carries the implicit
+        `return None` (that is `retLn`)."""
+        r = self.r
+        np_ = r.randint(0, 2) if cls else r.randint(1, 3)
+        self.nps.append(np_)
+        def_ln = self.nl()
+        if ng:
+            self.nl()  # `global ...` line
+        self.nattr = nattr
+        locs = list(range(np_))
+        body = []
+        nloc = r.randint(0, 2) if small else r.randint(1, 3)
+        if np_ == 0:
+            nloc = max(nloc, 1)
+        if init:
+            nloc = 0 if np_ else 1
+        for j in range(np_, np_ + nloc):
+            body.append({"asg": {"ln": self.nl(), "tg": L(j), "e": self.expr(locs, ng, 1)}})
+            locs.append(j)
+        counters = [np_ + nloc]
+        if init:
+            for i in range(nattr):
+                if r.random() < 0.6:
+                    body.append({"asg": {"ln": self.nl(), "tg": A(i), "e": self.expr(locs, ng, 1)}})
+        else:
+            n = r.randint(0, 2) if small else r.randint(2, 4)
+            if n and r.random() < 0.5:
+                # the first statement after the locals is a branch (block 0 of every such code object ends in
+                # a conditional jump, the dominated regions differ from function to function)
+                self.branch_first = True
+            body += self.block(fi, locs, list(locs), ng, 0, n, counters)
+            self.branch_first = False
+        if void:
+            k = r.random()
+            if nattr and k < 0.75:
+                tg = A(r.randrange(nattr))
+            elif ng and k < 0.75:
+                tg = G(r.randrange(ng))
+            else:
+                tg = L(r.choice(locs))
+            ret_ln = self.nl()
+            body.append({"asg": {"ln": ret_ln, "tg": tg, "e": self.expr(locs, ng, 1)}})
+            ret = K(0)
+        else:
+            ret_ln = self.nl()
+            ret = self.expr(locs, ng)
+            if nattr and r.random() < 0.7:     # getters: the result depends on the object's state
+                ret = B(r.choice(["add", "sub"]), A(r.randrange(nattr)), ret) if r.random() < 0.5 \
+                    else A(r.randrange(nattr))
+        self.nattr = 0
+        return {"defLn": def_ln, "np": np_, "body": body, "retLn": ret_ln, "ret": ret,
+                "void": void, "cls": cls}
 
     def module(self):
         r = self.r
@@ -157,37 +261,114 @@ class MiniGen:
         ginit = []
         for i in range(ng):
             ginit.append([self.nl(), [i, r.randint(-2, 6)]])
-        nf = r.choice([1, 1, 2, 2, 3])
-        self.nps = []
+        nf = r.choice([1, 2, 2, 3, 3, 4])
         funs = []
         for fi in range(nf):
-            np_ = r.randint(1, 3)
-            self.nps.append(np_)
-            nloc = r.randint(1, 3)
-            def_ln = self.nl()
-            if ng:
-                self.nl()  # `global ...` line
-            params = list(range(np_))
-            locs = list(params)
-            body = []
-            for j in range(np_, np_ + nloc):
-                body.append({"asg": {"ln": self.nl(), "tg": L(j), "e": self.expr(locs, ng, 1)}})
-                locs.append(j)
-            counters = [np_ + nloc]
-            body += self.block(fi, locs, list(locs), ng, 0, r.randint(2, 4), counters)
-            ret_ln = self.nl()
-            funs.append({"defLn": def_ln, "np": np_, "body": body, "retLn": ret_ln,
-                         "ret": self.expr(locs, ng)})
+            void = r.random() < 0.2
+            # small and large functions side by side: their CFGs / CDGs differ in size (block numbering)
+            funs.append(self.function(fi, ng, void=void, small=r.random() < 0.4))
+            if not void:
+                self.callable.append(fi)
         # test case
         test = []
         for _ in range(r.randint(1, 3)):
             test.append({"const": {"n": r.randint(-4, 9)}})
-        ncalls = r.choice([1, 1, 2, 2, 3])
+        ncalls = r.choice([1, 2, 2, 3, 3]) + (1 if len(self.callable) < nf else 0)
         for _ in range(ncalls):
-            f = r.randrange(nf) if r.random() < 0.5 else nf - 1
-            test.append({"call": {"f": f, "args": [r.randrange(len(test)) for _ in range(self.nps[f])]}})
-        asserts = sorted({i for i in range(len(test)) if "call" in test[i] and r.random() < 0.5})
-        return {"ginit": ginit, "funs": funs, "test": test, "asserts": asserts}
+            f = r.randrange(nf) if r.random() < 0.7 else nf - 1
+            test.append({"call": {"f": f, "args": [self.int_stmt(test, funs) for _ in range(self.nps[f])]}})
+        asserts = sorted({i for i in range(len(test)) if "call" in test[i]
+                          and not funs[test[i]["call"]["f"]]["void"] and r.random() < 0.5})
+        return {"ginit": ginit, "funs": funs, "classes": [], "test": test, "asserts": asserts}
+
+    def int_stmt(self, test, funs):
+        """Index of a test statement that holds an int."""
+        ok = [k for k, t in enumerate(test) if "const" in t or "attr" in t
+              or ("call" in t and not funs[t["call"]["f"]]["void"])
+              or ("mcall" in t and not funs[t["mcall"]["f"]]["void"])]
+        return self.r.choice(ok)
+
+    # ---- modules with classes ---------------------------------------------------------------
+    def module_obj(self):
+        """Classes with class-level attribute defaults, optional `__init__`, value methods (`return e`
+        over `self.a<i>`) and void methods (last line = attribute store + implicit `return None`),
+        methods calling each other through `self`; optionally a module global and module functions.
+        The test creates objects and calls methods on them, every statement bound."""
+        r = self.r
+        ng = r.choice([0, 0, 1])
+        ginit = [[self.nl(), [i, r.randint(-2, 6)]] for i in range(ng)]
+        funs, classes = [], []
+        for _ in range(r.choice([0, 0, 1])):
+            void = bool(ng) and r.random() < 0.5
+            funs.append(self.function(len(funs), ng, void=void, small=True))
+            if not void:
+                self.callable.append(len(funs) - 1)
+        meths = []     # per class: [(index, void)]
+        for c in range(r.choice([1, 1, 2])):
+            cls_ln = self.nl()
+            nattr = r.randint(1, 3)
+            defaults = [[self.nl(), [i, r.randint(-2, 6)]] for i in range(nattr)]
+            init = None
+            self.smeths = []
+            if r.random() < 0.5:
+                init = len(funs)
+                funs.append(self.function(init, ng, cls=c + 1, nattr=nattr, void=True, init=True))
+            mine = []
+            nm = r.randint(2, 4)
+            for j in range(nm):
+                # at least one void and one value method per class
+                void = (j == 0) or (j != 1 and r.random() < 0.45)
+                fi = len(funs)
+                funs.append(self.function(fi, ng, cls=c + 1, nattr=nattr, void=void, small=True))
+                self.smeths.append((fi, self.nps[fi], void))
+                mine.append((fi, void))
+            self.smeths = []
+            classes.append({"ln": cls_ln, "defaults": defaults, "init": init, "nattr": nattr})
+            meths.append(mine)
+        # ---- test case
+        test = [{"const": {"n": r.randint(-4, 9)}} for _ in range(r.randint(1, 2))]
+        nconst = len(test)
+        objs = []      # (statement index, class)
+        for c, k in enumerate(classes):
+            for _ in range(r.choice([1, 1, 2])):
+                np_ = self.nps[k["init"]] if k["init"] is not None else 0
+                objs.append((len(test), c))
+                test.append({"new": {"c": c, "args": [r.randrange(nconst) for _ in range(np_)]}})
+
+        def margs(f):
+            return [r.randrange(nconst) if r.random() < 0.6 else self.int_stmt(test, funs)
+                    for _ in range(self.nps[f])]
+
+        for _ in range(r.randint(2, 6)):
+            k = r.random()
+            o, c = r.choice(objs)
+            if k < 0.12 and any(f["cls"] == 0 for f in funs):
+                f = r.choice([i for i, fn in enumerate(funs) if fn["cls"] == 0])
+                test.append({"call": {"f": f, "args": margs(f)}})
+            elif k < 0.27:
+                test.append({"attr": {"o": o, "i": r.randrange(classes[c]["nattr"])}})
+            else:
+                f, _ = r.choice(meths[c])
+                test.append({"mcall": {"o": o, "f": f, "args": margs(f)}})
+        if r.random() < 0.4:
+            # a common shape of generated tests: set, observe, set again (all bound)
+            o, c = r.choice(objs)
+            setter = r.choice([f for f, v in meths[c] if v])
+            getters = [f for f, v in meths[c] if not v]
+            test.append({"mcall": {"o": o, "f": setter, "args": margs(setter)}})
+            for _ in range(r.randint(1, 2)):
+                if r.random() < 0.3:
+                    test.append({"attr": {"o": o, "i": r.randrange(classes[c]["nattr"])}})
+                else:
+                    g = r.choice(getters)
+                    test.append({"mcall": {"o": o, "f": g, "args": margs(g)}})
+            test.append({"mcall": {"o": o, "f": setter, "args": margs(setter)}})
+        asserts = sorted({i for i, t in enumerate(test) if r.random() < 0.4 and (
+            "attr" in t or ("call" in t and not funs[t["call"]["f"]]["void"])
+            or ("mcall" in t and not funs[t["mcall"]["f"]]["void"]))})
+        for k in classes:
+            del k["nattr"]
+        return {"ginit": ginit, "funs": funs, "classes": classes, "test": test, "asserts": asserts}
 
 
 REC_TEMPLATES = 3
@@ -247,6 +428,10 @@ def rec_module(rng: random.Random):
     return {"ginit": [], "funs": funs, "test": test, "asserts": [1] if rng.random() < 0.5 else []}
 
 
+def r_recv(rv) -> str:
+    return "self" if rv == "self" else f"v{rv['l']['i']}"
+
+
 def r_expr(e) -> str:
     if "k" in e:
         return str(e["k"]["n"]) if e["k"]["n"] >= 0 else f"({e['k']['n']})"
@@ -254,6 +439,8 @@ def r_expr(e) -> str:
         return f"v{e['l']['i']}"
     if "g" in e:
         return f"G{e['g']['i']}"
+    if "at" in e:
+        return f"{r_recv(e['at']['r'])}.a{e['at']['i']}"
     b = e["bin"]
     return f"({r_expr(b['a'])} {BIN[b['op']]} {r_expr(b['b'])})"
 
@@ -263,11 +450,14 @@ def r_cond(c) -> str:
 
 
 def r_tgt(t) -> str:
+    if "at" in t:
+        return f"{r_recv(t['at']['r'])}.a{t['at']['i']}"
     return f"v{t['l']['i']}" if "l" in t else f"G{t['g']['i']}"
 
 
 def render(prog) -> str:
     """Python source of a PyMini module; every statement lands on the line its `ln` says."""
+    prog = norm_prog(prog)
     lines: dict[int, str] = {}
     ng = len(prog["ginit"])
 
@@ -299,18 +489,34 @@ def render(prog) -> str:
                 w = s["wh"]
                 put(w["ln"], f"{pad}while {r_cond(w['c'])}:")
                 block(w["a"], ind + 1)
+            elif "mcall" in s:
+                c = s["mcall"]
+                lhs = f"{r_tgt(c['tg'])} = " if c.get("tg") is not None else ""
+                put(c["ln"], f"{pad}{lhs}{r_recv(c['r'])}.{fun_name(prog, c['f'])}"
+                             f"({', '.join(r_expr(x) for x in c['args'])})")
+            elif "new" in s:
+                c = s["new"]
+                put(c["ln"], f"{pad}{r_tgt(c['tg'])} = C{c['c']}({', '.join(r_expr(x) for x in c['args'])})")
             else:
                 c = s["call"]
                 put(c["ln"], f"{pad}{r_tgt(c['tg'])} = f{c['f']}({', '.join(r_expr(x) for x in c['args'])})")
 
     for ln, (i, n) in prog["ginit"]:
         put(ln, f"G{i} = {n}")
+    for ci, k in enumerate(prog["classes"]):
+        put(k["ln"], f"class C{ci}:")
+        for ln, (i, n) in k["defaults"]:
+            put(ln, f"    a{i} = {n}")
     for fi, f in enumerate(prog["funs"]):
-        put(f["defLn"], f"def f{fi}({', '.join('v%d' % i for i in range(f['np']))}):")
+        ind = 1 if f["cls"] else 0
+        pad = "    " * ind
+        params = (["self"] if f["cls"] else []) + ["v%d" % i for i in range(f["np"])]
+        put(f["defLn"], f"{pad}def {fun_name(prog, fi)}({', '.join(params)}):")
         if ng:
-            put(f["defLn"] + 1, "    global " + ", ".join(f"G{i}" for i in range(ng)))
-        block(f["body"], 1)
-        put(f["retLn"], f"    return {r_expr(f['ret'])}")
+            put(f["defLn"] + 1, pad + "    global " + ", ".join(f"G{i}" for i in range(ng)))
+        block(f["body"], ind + 1)
+        if not f["void"]:
+            put(f["retLn"], f"{pad}    return {r_expr(f['ret'])}")
     last = max(lines)
     return "\n".join(lines.get(i, "") for i in range(1, last + 1)) + "\n"
 
@@ -333,14 +539,76 @@ def has_loop(prog) -> bool:
 
 
 def test_view(prog):
-    """The test as [('const', n) | ('call', 'f<i>', [arg statement indices])]."""
+    """The test as [('const', n) | ('call', 'f<i>', [args]) | ('new', 'C<c>', [args]) |
+    ('mcall', obj statement, 'm<i>', [args]) | ('attr', obj statement, 'a<i>')] (args = statement indices)."""
     out = []
     for t in prog["test"]:
         if "const" in t:
             out.append(("const", t["const"]["n"]))
-        else:
+        elif "call" in t:
             out.append(("call", f"f{t['call']['f']}", list(t["call"]["args"])))
+        elif "new" in t:
+            out.append(("new", f"C{t['new']['c']}", list(t["new"]["args"])))
+        elif "mcall" in t:
+            m = t["mcall"]
+            out.append(("mcall", m["o"], fun_name(prog, m["f"]), list(m["args"])))
+        else:
+            out.append(("attr", t["attr"]["o"], f"a{t['attr']['i']}"))
     return out
+
+
+def void_ret_line(prog, k):
+    """Line of the implicit `return None` test statement k ends with (a call of a void function or
+    method, or of a class with `__init__`), else None.  `_cleanse_included_implicit_return_none`
+    takes exactly that line out of the statement's own contribution to the checked lines."""
+    prog = norm_prog(prog)
+    t = prog["test"][k]
+    f = None
+    if "call" in t:
+        f = t["call"]["f"]
+    elif "mcall" in t:
+        f = t["mcall"]["f"]
+    elif "new" in t:
+        f = prog["classes"][t["new"]["c"]]["init"]
+    if f is None or not prog["funs"][f]["void"]:
+        return None
+    return prog["funs"][f]["retLn"]
+
+
+def test_names(test):
+    """pynguin-style variable names of the test statements."""
+    names = []
+    for k, t in enumerate(test):
+        names.append(f"obj_{k}" if t[0] == "new" else f"int_{k}")
+    return names
+
+
+def stmt_code(t, names, alias):
+    if t[0] == "const":
+        return str(t[1])
+    if t[0] in ("call", "new"):
+        return f"{alias}.{t[1]}({', '.join(names[a] for a in t[2])})"
+    if t[0] == "mcall":
+        return f"{names[t[1]]}.{t[2]}({', '.join(names[a] for a in t[3])})"
+    return f"{names[t[1]]}.{t[2]}"
+
+
+class Canon:
+    """JSON-able values of test statements: ints as they are, None as 0, SUT objects by creation order."""
+
+    def __init__(self):
+        self.seen = {}
+        self.keep = []
+
+    def __call__(self, v):
+        if isinstance(v, bool) or isinstance(v, (int, dict)):
+            return v
+        if v is None:
+            return 0
+        if id(v) not in self.seen:
+            self.seen[id(v)] = len(self.seen) + 1
+            self.keep.append(v)
+        return self.seen[id(v)]
 
 
 # ---------------------------------------------------------------------------------------------
@@ -352,11 +620,19 @@ class OutOfFuel(Exception):
 
 class Prov:
     def __init__(self, prog, carried=True):
-        self.p = prog
+        self.p = norm_prog(prog)
         self.carried = carried   # False: only the first evaluation of a loop test controls the body
         self.gl = {}
+        self.heap = {}           # (object, attribute) -> (value, lines)
+        self.cdef = {}           # (class, attribute) -> (value, lines): class-level defaults
+        self.cls_of = {}
+        self.nobj = 0
         self.executed = set()
         self.fuel = 200000
+
+    def recv(self, rv, env):
+        """(object, lines the reference depends on) of a receiver."""
+        return env["self"] if rv == "self" else env[rv["l"]["i"]]
 
     def ev(self, e, env):
         if "k" in e:
@@ -365,6 +641,11 @@ class Prov:
             return env[e["l"]["i"]]
         if "g" in e:
             return self.gl[e["g"]["i"]]
+        if "at" in e:
+            o, dr = self.recv(e["at"]["r"], env)
+            key = (o, e["at"]["i"])
+            v, d = self.heap[key] if key in self.heap else self.cdef[(self.cls_of[o], key[1])]
+            return v, d | dr
         b = e["bin"]
         (x, dx), (y, dy) = self.ev(b["a"], env), self.ev(b["b"], env)
         v = {"add": x + y, "sub": x - y, "mul": x * y}.get(b["op"])
@@ -377,11 +658,17 @@ class Prov:
         v = {"lt": x < y, "le": x <= y, "eq": x == y, "ne": x != y, "gt": x > y, "ge": x >= y}[c["op"]]
         return v, dx | dy
 
+    def tuses(self, tg, env):
+        """Lines the stored-to location depends on (the receiver of `self.a = …`)."""
+        return self.recv(tg["at"]["r"], env)[1] if "at" in tg else frozenset()
+
     def store(self, tg, val, env):
         if "l" in tg:
             env[tg["l"]["i"]] = val
-        else:
+        elif "g" in tg:
             self.gl[tg["g"]["i"]] = val
+        else:
+            self.heap[(self.recv(tg["at"]["r"], env)[0], tg["at"]["i"])] = val
 
     def block(self, stmts, env, ctrl):
         for s in stmts:
@@ -392,7 +679,7 @@ class Prov:
                 a = s["asg"]
                 self.executed.add(a["ln"])
                 v, d = self.ev(a["e"], env)
-                self.store(a["tg"], (v, d | ctrl | {a["ln"]}), env)
+                self.store(a["tg"], (v, d | ctrl | {a["ln"]} | self.tuses(a["tg"], env)), env)
             elif "ite" in s:
                 i = s["ite"]
                 self.executed.add(i["ln"])
@@ -415,16 +702,38 @@ class Prov:
                         break
                     self.block(w["a"], env, hdr)
             else:
-                c = s["call"]
-                self.executed.add(c["ln"])
-                args = [self.ev(x, env) for x in c["args"]]
-                rv = self.call(c["f"], [(v, d | ctrl | {c["ln"]}) for v, d in args], ctrl | {c["ln"]})
-                self.store(c["tg"], (rv[0], rv[1] | ctrl | {c["ln"]}), env)
+                (kind, c), = s.items()
+                ln = c["ln"]
+                self.executed.add(ln)
+                here = ctrl | {ln}
+                res = None
+                if kind == "call":
+                    f, selfv, cuses = c["f"], None, frozenset()
+                elif kind == "mcall":
+                    o, dr = self.recv(c["r"], env)
+                    f, selfv, cuses = c["f"], (o, dr | here), dr   # the receiver selects the callee
+                else:
+                    self.nobj += 1
+                    o = self.nobj
+                    self.cls_of[o] = c["c"]
+                    f, selfv, cuses = self.p["classes"][c["c"]]["init"], (o, here), frozenset()
+                    res = (o, here)                                # the reference: just the creation
+                if f is not None:
+                    args = [self.ev(x, env) for x in c["args"]]
+                    rv = self.call(f, [(v, d | here) for v, d in args], here | cuses, selfv)
+                    if res is None:
+                        res = rv
+                if c.get("tg") is not None:
+                    self.store(c["tg"], (res[0], res[1] | here | self.tuses(c["tg"], env)), env)
 
-    def call(self, f, args, ctrl):
+    def call(self, f, args, ctrl, selfv=None):
         fn = self.p["funs"][f]
         env = dict(enumerate(args))
+        if selfv is not None:
+            env["self"] = selfv
         self.block(fn["body"], env, ctrl)
+        if fn["void"]:
+            return 0, ctrl | {fn["retLn"]}      # the implicit `return None` on the last statement's line
         self.executed.add(fn["retLn"])
         v, d = self.ev(fn["ret"], env)
         return v, d | ctrl | {fn["retLn"]}
@@ -435,25 +744,36 @@ class Prov:
             self.gl[i] = (n, frozenset({ln}))
         for f in self.p["funs"]:
             self.executed.add(f["defLn"])
+        for ci, k in enumerate(self.p["classes"]):
+            self.executed.add(k["ln"])
+            for ln, (i, n) in k["defaults"]:
+                self.executed.add(ln)
+                self.cdef[(ci, i)] = (n, frozenset({ln}))
         vals, deps = [], []
         env = {}
         for k, t in enumerate(self.p["test"]):
+            tg = L(k)
             if "const" in t:
-                env[k] = (t["const"]["n"], frozenset({0}))
+                s = {"asg": {"ln": 0, "tg": tg, "e": K(t["const"]["n"])}}
+            elif "call" in t:
+                s = {"call": {"ln": 0, "tg": tg, "f": t["call"]["f"], "args": [L(a) for a in t["call"]["args"]]}}
+            elif "new" in t:
+                s = {"new": {"ln": 0, "tg": tg, "c": t["new"]["c"], "args": [L(a) for a in t["new"]["args"]]}}
+            elif "mcall" in t:
+                m = t["mcall"]
+                s = {"mcall": {"ln": 0, "tg": tg, "r": L(m["o"]), "f": m["f"], "args": [L(a) for a in m["args"]]}}
             else:
-                c = t["call"]
-                args = [(env[a][0], env[a][1] | {0}) for a in c["args"]]
-                rv = self.call(c["f"], args, frozenset({0}))
-                env[k] = (rv[0], rv[1] | {0})
+                s = {"asg": {"ln": 0, "tg": tg, "e": A(t["attr"]["i"], L(t["attr"]["o"]))}}
+            self.block([s], env, frozenset())
             vals.append(env[k][0])
             deps.append(sorted(env[k][1] - {0}))
-        return vals, deps, sorted(self.executed)
+        return vals, deps, sorted(self.executed - {0})
 
 
 # ---------------------------------------------------------------------------------------------
 # Independent oracle 2: what CPython really executed (un-instrumented copy, sys.monitoring)
 # ---------------------------------------------------------------------------------------------
-def run_plain(src: str, test, workdir: str):
+def run_plain(src: str, test, workdir: str, canon_vals: bool = False):
     """Import + run the test on a plain copy. Returns (vals, executed lines, executed opcode keys)."""
     name = f"c09plain_{os.getpid()}_{next(_counter)}"
     path = os.path.join(workdir, name + ".py")
@@ -492,6 +812,7 @@ def run_plain(src: str, test, workdir: str):
         return None
 
     vals = []
+    canon = Canon()
     sys.path.insert(0, workdir)
     mon.use_tool_id(tool, "verif-c09")
     try:
@@ -503,15 +824,19 @@ def run_plain(src: str, test, workdir: str):
             mod = importlib.import_module(name)
             env = {}
             for k, t in enumerate(test):
-                if t[0] == "const":
-                    env[k] = t[1]
-                else:
-                    try:
+                try:
+                    if t[0] == "const":
+                        env[k] = t[1]
+                    elif t[0] in ("call", "new"):
                         env[k] = getattr(mod, t[1])(*[env[a] for a in t[2]])
-                    except Exception as e:  # noqa: BLE001  (the SUT may raise: the test stops here)
-                        vals.append({"err": type(e).__name__})
-                        break
-                vals.append(env[k])
+                    elif t[0] == "mcall":
+                        env[k] = getattr(env[t[1]], t[2])(*[env[a] for a in t[3]])
+                    else:
+                        env[k] = getattr(env[t[1]], t[2])
+                except Exception as e:  # noqa: BLE001  (the SUT may raise: the test stops here)
+                    vals.append({"err": type(e).__name__})
+                    break
+                vals.append(canon(env[k]) if canon_vals else env[k])
         finally:
             mon.set_events(tool, 0)
     finally:
@@ -528,7 +853,7 @@ def run_plain(src: str, test, workdir: str):
 # ---------------------------------------------------------------------------------------------
 # The real implementation
 # ---------------------------------------------------------------------------------------------
-def run_real(src: str, test, asserts, plain_vals, workdir: str):
+def run_real(src: str, test, asserts, plain_vals, workdir: str, canon_vals: bool = False):
     import libcst as cst
     import pynguin.assertion.assertion as ass
     import pynguin.configuration as config
@@ -590,14 +915,15 @@ def run_real(src: str, test, asserts, plain_vals, workdir: str):
             grab = Grab()
             executor.add_remote_observer(grab)
             case = tc.TestCase()
+            names = test_names(test)
             for k, t in enumerate(test):
-                code = (f"int_{k} = {t[1]}" if t[0] == "const"
-                        else f"int_{k} = {alias}.{t[1]}({', '.join('int_%d' % a for a in t[2])})")
+                code = f"{names[k]} = {stmt_code(t, names, alias)}"
                 node = cst.parse_module(code + "\n").body[0]
-                case.add_statement(tc.Statement(node=node, bound_variable=f"int_{k}", bound_type=int))
+                case.add_statement(tc.Statement(node=node, bound_variable=names[k],
+                                                bound_type=None if t[0] == "new" else int))
             for k in asserts:
-                if k < len(plain_vals) and isinstance(plain_vals[k], int):
-                    case.get_statement(k).assertions.append(ass.ObjectAssertion(f"int_{k}", plain_vals[k]))
+                if k < len(plain_vals) and isinstance(plain_vals[k], int) and test[k][0] != "new":
+                    case.get_statement(k).assertions.append(ass.ObjectAssertion(names[k], plain_vals[k]))
             result = executor.execute(case)
             if result.timeout:
                 return {"timeout": True}
@@ -612,16 +938,27 @@ def run_real(src: str, test, asserts, plain_vals, workdir: str):
             def qual(u):
                 return known[u.code_object_id].code_object.co_qualname
 
-            out["vals"] = [grab.vals.get(k) for k in range(len(test)) if k in grab.vals]
+            canon = Canon() if canon_vals else (lambda v: v)
+            out["vals"] = [canon(grab.vals.get(k)) for k in range(len(test)) if k in grab.vals]
             out["checked"] = ln(trace.checked_lines)
             out["n_instr"] = len(instrs)
             criteria = grab.criteria
             slicer = DynamicSlicer(known)
             out["slices"], out["slice_keys"], out["crit_missing"] = [], [], []
+            out["trailing_none"], out["slice_errors"] = [], []
             for k in sorted(criteria):
                 crit = criteria[k]
-                sl = slicer.slice(trace, crit)
+                try:
+                    sl = slicer.slice(trace, crit)
+                except Exception as e:  # noqa: BLE001  pynguin's slicer raised: no slice for an executed statement
+                    out["slice_errors"].append(["stmt", k, type(e).__name__])
+                    continue
                 out["slices"].append([k, ln(DynamicSlicer.map_instructions_to_lines(sl, sp))])
+                # a `return None` directly before the criterion: the only line the cleansing of
+                # compute_statement_checked_lines may take out of this statement's contribution
+                if (len(sl) >= 2 and sl[-2].name == "RETURN_CONST" and sl[-2].arg is None
+                        and sl[-2].file != AST_FILENAME):
+                    out["trailing_none"].append([k, sl[-2].lineno])
                 out["slice_keys"].append([k, sorted({(qual(u), u.lineno, u.name) for u in sl
                                                      if u.file != AST_FILENAME}, key=repr)])
                 ci = instrs[crit.trace_position]
@@ -630,7 +967,13 @@ def run_real(src: str, test, asserts, plain_vals, workdir: str):
                     out["crit_missing"].append(["stmt", k])
             # assertions: through the real entry point (fills assertion.checked_instructions)
             out["aslices"], out["aslice_keys"] = [], []
-            cov = compute_assertion_checked_coverage(trace, sp)
+            try:
+                cov = compute_assertion_checked_coverage(trace, sp)
+            except Exception as e:  # noqa: BLE001
+                out["slice_errors"].append(["assert", -1, type(e).__name__])
+                for ea in trace.executed_assertions:
+                    del ea.assertion.checked_instructions[:]
+                cov = None
             union = set()
             for j, ea in enumerate(trace.executed_assertions):
                 sl = list(ea.assertion.checked_instructions)
@@ -644,7 +987,7 @@ def run_real(src: str, test, asserts, plain_vals, workdir: str):
                            and u.instr_original_index == ci.instr_original_index for u in sl):
                     out["crit_missing"].append(["assert", j])
             existing = len(sp.existing_lines)
-            out["acov_consistent"] = bool(existing == 0 or cov == len(union) / existing)
+            out["acov_consistent"] = bool(existing == 0 or cov is None or cov == len(union) / existing)
             out["n_assert"] = len(trace.executed_assertions)
     finally:
         sys.path.remove(workdir)
@@ -667,7 +1010,10 @@ class C09(PropertyCheck):
     assumptions = [
         "events are statement-level steps; pynguin's operand-stack simulation inside one statement is abstracted",
         "dependence-completeness (c) is claimed for the PyMini fragment without recursion "
-        "(int locals/params, module globals, assignment, if/else, while, calls ending in `return e`)",
+        "(int locals/params, module globals, assignment, if/else, while, calls ending in `return e`, classes with "
+        "attribute defaults / __init__ / methods over self.a<i>, void functions and methods; every test statement bound)",
+        "checked lines of a test (compute_statement_checked_lines) = union of the statements' slice lines, each "
+        "statement's own trailing `return None` line excepted (_cleanse_included_implicit_return_none)",
     ]
     trusted_base_extra = [
         "CPython's sys.monitoring LINE/INSTRUCTION events on an un-instrumented copy define 'executed'",
@@ -684,10 +1030,12 @@ class C09(PropertyCheck):
     # ---- generation ---------------------------------------------------------------------------
     def gen_case(self, rng: random.Random):
         k = rng.random()
-        p_mini, p_rec = (0.84, 0.08) if self.tier == "quick" else (0.74, 0.08)
+        p_mini, p_obj, p_rec = (0.46, 0.38, 0.08) if self.tier == "quick" else (0.42, 0.32, 0.08)
         if k < p_mini:
             return {"kind": "mini", "prog": MiniGen(rng).module()}
-        if k < p_mini + p_rec:
+        if k < p_mini + p_obj:
+            return {"kind": "obj", "prog": MiniGen(rng).module_obj()}
+        if k < p_mini + p_obj + p_rec:
             return {"kind": "rec", "prog": rec_module(rng)}
         import progen
         seed = rng.randrange(1 << 30)
@@ -715,20 +1063,21 @@ class C09(PropertyCheck):
     def impl(self, case):
         kind = case["kind"]
         self.count("kind:" + kind)
-        if kind in ("mini", "rec"):
+        frag = kind in FRAGMENT_KINDS
+        if frag:
             src = render(case["prog"])
-            test = test_view(case["prog"])
+            test = test_view(norm_prog(case["prog"]))
             asserts = list(case["prog"]["asserts"])
         else:
             src = case["src"]
             test, asserts = self._wide_test(case)
-        pvals, plines, pops = run_plain(src, test, self.workdir)
-        out = run_real(src, test, asserts, pvals, self.workdir)
+        pvals, plines, pops = run_plain(src, test, self.workdir, canon_vals=frag)
+        out = run_real(src, test, asserts, pvals, self.workdir, canon_vals=frag)
         if out.get("timeout"):
             # pynguin reported the execution as timed out; in practice: the slicing observer raised
             # (`get_line_id_by_instruction` on a line-less JUMP_BACKWARD), nothing is reported as checked
-            self.count("execution-without-result")
-            return {"timeout": True}
+            self.count("execution-without-result:" + kind)
+            return {"timeout": True, "fragment": frag}
         out["plain_vals"] = pvals
         out["executed"] = sorted(plines)
         # (b): instructions of a slice that CPython did not execute in this execution
@@ -739,6 +1088,13 @@ class C09(PropertyCheck):
                 if bad:
                     unexec.append([tag, k, bad[:5]])
         out["unexecuted"] = unexec
+        # lines of a statement's slice (other than its trailing `return None` line) that the test's
+        # checked lines do not contain
+        own = dict((k, l) for k, l in out["trailing_none"])
+        checked = set(out["checked"])
+        out["unreported"] = [[k, sorted(set(lines) - checked - {own.get(k)})] for k, lines in out["slices"]
+                             if set(lines) - checked - {own.get(k)}]
+        self.count("test-void-stmts:%d" % min(len(own), 3))
         self.count("stmts:%d" % min(len(test), 9))
         self.count("instr:%s" % ("<50" if out["n_instr"] < 50 else "<200" if out["n_instr"] < 200 else ">=200"))
         if any(isinstance(v, dict) for v in out["vals"]):
@@ -749,7 +1105,7 @@ class C09(PropertyCheck):
     def model_line(self, case):
         if case["kind"] == "wide":
             return None
-        return jdump({"mini": {"c": {"prog": case["prog"], "fuel": FUEL}}})
+        return jdump({"mini": {"c": {"prog": norm_prog(case["prog"]), "fuel": FUEL}}})
 
     def compare(self, case, io, mo) -> bool:
         if io.get("timeout"):
@@ -782,6 +1138,12 @@ class C09(PropertyCheck):
         for need, got in zip(mo["waslices"], io["aslices"]):
             if not set(need) <= set(got):
                 return False
+        # correspondence 3: compute_statement_checked_lines (slice, cleanse the statement's own trailing
+        # `return None` line, accumulate) reports at least what its model reports
+        if not set(mo["wchecked"]) <= set(io["checked"]):
+            return False
+        if not has_loop(case["prog"]) and mo["wchecked"] != mo["checked"]:
+            return False
         if not has_loop(case["prog"]) and (mo["wslices"] != mo["slices"] or mo["waslices"] != mo["aslices"]):
             return False
         return True
@@ -789,8 +1151,19 @@ class C09(PropertyCheck):
     # ---- the property itself on the implementation ----------------------------------------------
     def oracle(self, case, io):
         if io.get("timeout"):
+            if io.get("fragment"):
+                # a terminating test on a program of the fragment: the execution ended without a result, i.e.
+                # the slicing observer raised — nothing is reported as checked, no statement got a slice
+                return [Failure({"part": "c-dependence-complete", "class": "no-slice-produced"},
+                                "the execution of a terminating test of the fragment produced no result "
+                                "(slicing observer raised): no slice / checked lines for any statement")]
             return []
         fs = []
+        if io["slice_errors"]:
+            tag, k, err = io["slice_errors"][0]
+            fs.append(Failure({"part": "c-dependence-complete", "class": "slicer-raises"},
+                              f"pynguin's slicer raised {err} on the criterion of {tag} {k}: no slice for an executed "
+                              f"statement"))
         executed = set(io["executed"])
         extra = set(io["checked"]) - executed
         if extra:
@@ -815,11 +1188,11 @@ class C09(PropertyCheck):
         if io["crit_missing"]:
             fs.append(Failure({"part": "b-criterion-in-slice"},
                               f"slice does not contain its criterion: {io['crit_missing'][0]}"))
-        if case["kind"] in ("mini", "rec"):
+        if case["kind"] in FRAGMENT_KINDS:
             try:
                 pv, pdeps, _ = Prov(case["prog"]).run()
             except OutOfFuel:
-                return fs
+                return fs + self._unreported(io)
             if pv == io["plain_vals"]:      # the oracle's semantics is validated on this very run
                 islices = dict((k, v) for k, v in io["slices"])
                 wdeps = Prov(case["prog"], carried=False).run()[1]
@@ -839,7 +1212,33 @@ class C09(PropertyCheck):
                     fs.append(Failure(sig, f"value of int_{k} depends on lines {sorted(missing)} "
                                            f"which are not in its slice {islices.get(k)}"))
                     break
-        return fs
+                # the lines the test reports as checked by its statements: every line a bound statement's
+                # value depends on, except the line of that statement's own trailing `return None`.
+                # (Lines the slicer itself misses are reported above, per slice — known findings included.)
+                checked = set(io["checked"])
+                for k, need in enumerate(pdeps):
+                    if k not in islices:
+                        continue
+                    lost = (set(need) & set(islices[k])) - checked - {void_ret_line(case["prog"], k)}
+                    if lost:
+                        fs.append(Failure(
+                            {"part": "c-checked-lines-complete", "class": "dependence-line-not-reported"},
+                            f"value of statement {k} depends on lines {sorted(lost)} (they are in its slice), "
+                            f"but the lines reported as checked for the test case are {sorted(checked)}"))
+                        break
+        return fs + self._unreported(io)
+
+    @staticmethod
+    def _unreported(io):
+        """The same clause without a dependence oracle (all kinds of programs): what
+        compute_statement_checked_lines reports contains every statement's slice lines except that
+        statement's own trailing `return None` line."""
+        if not io["unreported"]:
+            return []
+        k, lines = io["unreported"][0]
+        return [Failure({"part": "c-checked-lines-complete", "class": "slice-line-not-reported"},
+                        f"lines {lines} are in the slice of statement {k} (and are not the line of its own "
+                        f"trailing `return None`) but the test's checked lines {io['checked']} lack them")]
 
     def classify(self, case, io):
         if io.get("timeout"):
